@@ -187,7 +187,8 @@ def observe(x):
     idx = dict((w.id, i) for i, w in enumerate(ws))
     return {"workers": [obs_worker(w) for w in ws],
             "pool_placed": dict((lab(t), idx.get(wid, "?")) for t, wid in x._placed_tasks.items()),
-            "pool_placed_public": sorted(lab(t) for t in x.get_placed_tasks())}
+            "pool_placed_public": sorted(lab(t) for t in x.get_placed_tasks()),
+            "pools_placed_public": sorted(lab(t) for t in WorkerPools([x]).get_placed_tasks())}
 
 
 def workers_of(x):
@@ -358,7 +359,7 @@ G, C = "GPU", "CPU"
 
 
 class Config(object):
-    def __init__(self, name, kind, vecs, reqs=None, multis=None, comps=None, strategies=None, loads=None, ntasks=0, profiles=(), depth=None):
+    def __init__(self, name, kind, vecs, reqs=None, multis=None, comps=None, strategies=None, loads=None, ntasks=0, profiles=(), depth=None, all_q=False):
         self.name, self.kind, self.vecs = name, kind, [list(v) for v in vecs]
         self.level = 1 if kind == "resources" else 2
         self.reqs = reqs or []  # level 1: [(name, id)]
@@ -369,7 +370,7 @@ class Config(object):
         self.tasks = ["t%d" % (i + 1) for i in range(ntasks)]
         self.profiles = list(profiles)
         self.homog = all(homogeneous(v) for v in self.vecs)
-        self.all_q = False
+        self.all_q = all_q
         self.index = 0
         self.depth = depth  # (quick, thorough) history length, None: default of the kind
         self.DEM, self.REQ, self.RT = {}, {}, {}
@@ -434,51 +435,52 @@ def configs(tier, pid):
         comps = ["c1", "c2", "cp"] if th else ["c1", "c2"]
         out += [
             Config("R.any2", "resources", [[(G, "any", 2)]], reqs=[(G, "any"), (G, "1")],
-                   multis=[[(G, "any", 1)], [(G, "any", 1), (G, "1", 1)], [(G, "any", 2), (G, "1", 1)]], comps=comps),
+                   multis=[[(G, "any", 1)], [(G, "any", 1), (G, "1", 1)], [(G, "any", 2), (G, "1", 1)]], comps=comps, depth=(4, 6), all_q=th),
             Config("R.g1g2", "resources", [[(G, "1", 1), (G, "2", 1)]], reqs=[(G, "any"), (G, "1"), (G, "2")],
-                   multis=[[(G, "any", 1), (G, "1", 1)], [(G, "1", 1), (G, "2", 1)], [(G, "any", 2)]], comps=comps),
+                   multis=[[(G, "any", 1), (G, "1", 1)], [(G, "1", 1), (G, "2", 1)], [(G, "any", 2)]], comps=comps, depth=(5, 6)),
             Config("R.cany2_g1", "resources", [[(C, "any", 2), (G, "1", 1)]], reqs=[(C, "any"), (G, "any"), (G, "2")],
-                   multis=[[(C, "any", 1), (G, "any", 1)], [(C, "any", 2), (G, "1", 1)], [(C, "any", 1), (G, "2", 1)]], comps=comps, depth=(4, 6)),
+                   multis=[[(C, "any", 1), (G, "any", 1)], [(C, "any", 2), (G, "1", 1)], [(C, "any", 1), (G, "2", 1)]], comps=comps, depth=(4, 5)),
             Config("R.g1_g2x2", "resources", [[(G, "1", 1), (G, "2", 2)]], reqs=[(G, "any"), (G, "2")],
                    multis=[[(G, "any", 2), (G, "2", 1)]], comps=["c1", "c2"], depth=(4, 6)),
             Config("R.g1", "resources", [[(G, "1", 1)]], reqs=[(G, "any"), (G, "1")],
-                   multis=[[(G, "any", 1), (G, "1", 1)], [(G, "1", 1)]], comps=comps),
+                   multis=[[(G, "any", 1), (G, "1", 1)], [(G, "1", 1)]], comps=comps, depth=(5, 7), all_q=th),
             # mixed vectors (outside the loaders' homogeneity precondition): observations only
             Config("R.mixed_any_g1", "resources", [[(G, "any", 1), (G, "1", 1)]], reqs=[(G, "any"), (G, "1"), (G, "2")],
-                   multis=[[(G, "1", 1), (G, "2", 1)]], comps=comps, depth=(4, 6)),
+                   multis=[[(G, "1", 1), (G, "2", 1)]], comps=comps, depth=(4, 5)),
             Config("R.mixed_g1_any_g2", "resources", [[(G, "1", 1), (G, "any", 1), (G, "2", 1)]], reqs=[(G, "any"), (G, "1"), (G, "2"), (G, "3")],
-                   multis=[], comps=["c1", "c2", "c3"], depth=(4, 5)),
+                   multis=[], comps=["c1", "c2", "c3"] if th else ["c1", "c2"], depth=(4, 5)),
         ]
     nt = 3
     out += [
         Config("W.g1", "worker", [[(G, "1", 1)]],
-               strategies=[("sA", [(G, "any", 1)], False), ("sO", [(G, "any", 1), (G, "1", 1)], False), ("bA", [(G, "any", 1)], True)],
-               loads=[("lA", [(G, "any", 1)], 2)], ntasks=nt, profiles=["p1"]),
+               strategies=[("sA", [(G, "any", 1)], False), ("sO", [(G, "any", 1), (G, "1", 1)], False), ("bA", [(G, "any", 1)], True),
+                           ("sZ", [(C, "any", 0)], False)],
+               loads=[("lA", [(G, "any", 1)], 2)], ntasks=nt, profiles=["p1"], depth=(5, 8)),
         Config("W.g1g2", "worker", [[(G, "1", 1), (G, "2", 1)]],
                strategies=[("sA", [(G, "any", 1)], False), ("sC", [(G, "1", 1)], False), ("sB", [(G, "any", 2)], False),
                            ("bA", [(G, "any", 1)], True), ("bB", [(G, "any", 2)], True)],
-               loads=[("lA", [(G, "any", 1)], 2)], ntasks=nt, profiles=["p1"]),
+               loads=[("lA", [(G, "any", 1)], 2)], ntasks=nt, profiles=["p1"], depth=(5, 7)),
         Config("W.cany2_g1", "worker", [[(C, "any", 2), (G, "1", 1)]],
                strategies=[("sA", [(C, "any", 1)], False), ("sB", [(C, "any", 1), (G, "any", 1)], False),
                            ("sO", [(G, "any", 1), (G, "1", 1)], False), ("bA", [(C, "any", 1), (G, "1", 1)], True)],
-               loads=[("lA", [(G, "any", 1)], 1), ("lB", [(C, "any", 1)], 3)], ntasks=nt, profiles=["p1"]),
+               loads=[("lA", [(G, "any", 1)], 1), ("lB", [(C, "any", 1)], 3)], ntasks=nt, profiles=["p1"], depth=(5, 6)),
         Config("P.g1+g1", "pool", [[(G, "1", 1)], [(G, "1", 1)]],
                strategies=[("sA", [(G, "any", 1)], False), ("bA", [(G, "any", 1)], True)],
-               loads=[("lA", [(G, "any", 1)], 2)], ntasks=nt, profiles=["p1"]),
+               loads=[("lA", [(G, "any", 1)], 2)], ntasks=nt, profiles=["p1"], depth=(4, 6)),
         Config("P.g1g2+c1g1", "pool", [[(G, "1", 1), (G, "2", 1)], [(C, "any", 1), (G, "1", 1)]],
                strategies=[("sA", [(G, "any", 1)], False), ("sB", [(G, "any", 2)], False), ("sO", [(G, "any", 1), (G, "1", 1)], False),
                            ("bA", [(G, "any", 1), (C, "any", 1)], True)],
-               loads=[("lA", [(G, "any", 1)], 2)], ntasks=nt, profiles=["p1"]),
+               loads=[("lA", [(G, "any", 1)], 2)], ntasks=nt, profiles=["p1"], depth=(4, 5)),
     ]
     if th:
         out += [
             Config("W.gany2", "worker", [[(G, "any", 2)]],
                    strategies=[("sA", [(G, "any", 1)], False), ("sC", [(G, "1", 1)], False), ("sO", [(G, "any", 2), (G, "1", 1)], False),
                                ("bA", [(G, "any", 1)], True), ("bB", [(G, "2", 2)], True)],
-                   loads=[("lA", [(G, "any", 1)], 2)], ntasks=nt, profiles=["p1", "p2"]),
+                   loads=[("lA", [(G, "any", 1)], 2)], ntasks=nt, profiles=["p1", "p2"], depth=(5, 6)),
             Config("W.mixed_any_g1", "worker", [[(G, "any", 1), (G, "1", 1)]],
                    strategies=[("sA", [(G, "any", 1)], False), ("sC", [(G, "1", 1)], False), ("sD", [(G, "2", 1)], False), ("bA", [(G, "1", 1)], True)],
-                   loads=[("lA", [(G, "2", 1)], 2)], ntasks=nt, profiles=["p1"]),
+                   loads=[("lA", [(G, "2", 1)], 2)], ntasks=nt, profiles=["p1"], depth=(5, 6)),
         ]
     for j, c in enumerate(out):
         c.index = j
@@ -692,6 +694,8 @@ def check_instance(cfg, il, iobs, mode, drain=False):
             return ("pool", None, "pool_placed_tasks", "I['pool_placed']", want, iobs["pool_placed"])
         if iobs["pool_placed_public"] != sorted(want):
             return ("pool", None, "pool_placed_tasks", "I['pool_placed_public']", sorted(want), iobs["pool_placed_public"])
+        if iobs["pools_placed_public"] != sorted(want):
+            return ("pool", None, "pool_placed_tasks", "I['pools_placed_public']", sorted(want), iobs["pools_placed_public"])
     return None
 
 
@@ -990,6 +994,12 @@ def evaluate(cfg, hist, pledger, mode, seed, world=None):
             res["viol"] = finish_viol(cfg, hist, probe, mode, None, hwhat, can)
         elif before == after:
             res["world"] = (ns, after)
+        if out[0] == "raise" and op[0] == "remove" and not hwhat and any(op[2] in wl["res"] for wl in L[X]["W"]):
+            # a resident whose strategy demands nothing that exists on the worker got no allocation
+            # entry, so deallocate (and hence remove_task) refuses: it can never leave. Nothing leaks,
+            # so this is not a clause of C04/C01; recorded as an observation.
+            res["note"] = ("remove_task.refused_for_zero_demand_resident",
+                           "config %s; history: %s; %s" % (cfg.name, " ; ".join(op_src(cfg, o) for o in hist), out[1]))
         return res
     # successful step
     tv = transition(cfg, op, out, L, before, after)
@@ -1054,7 +1064,7 @@ def diff_text(before, after):
                 for f in sorted(set(wb) | set(wa)):
                     if wb.get(f) != wa.get(f):
                         out.append("%s.workers[%d].%s: %r -> %r" % (X, j, f, wb.get(f), wa.get(f)))
-            for f in ("pool_placed", "pool_placed_public"):
+            for f in ("pool_placed", "pool_placed_public", "pools_placed_public"):
                 if b.get(f) != a.get(f):
                     out.append("%s.%s: %r -> %r" % (X, f, b.get(f), a.get(f)))
         else:
@@ -1084,7 +1094,7 @@ def classify_refusal(cfg, op, out, L, before, after):
                 return ("pool", "WorkerPool." + ("load_profile" if k == "load" else "evict_profile") + ".partial_on_refusal",
                         demand + " (the pool-wide form loads/evicts on some workers and then raises on another)")
     elsewhere = any(Y != X for (Y, _j, _b, _a) in changed) or before.get("pending_strategy_sharing") != after.get("pending_strategy_sharing") \
-        or any(before[Y].get(f) != after[Y].get(f) for Y in ("A", "B") if Y in before and Y in after for f in ("pool_placed", "pool_placed_public"))
+        or any(before[Y].get(f) != after[Y].get(f) for Y in ("A", "B") if Y in before and Y in after for f in ("pool_placed", "pool_placed_public", "pools_placed_public"))
     if req is not None and changed and not elsewhere and all(overlap(req, cfg.vecs[j]) for (_Y, j, _b, _a) in changed):
         # the known defect: only allocation data of the requester changed, on a worker where two
         # request keys match a common key
@@ -1140,6 +1150,7 @@ def make_viol(cfg, hist, probe, mode, before, v, phase, can=None, dops=None, tai
             # diagnosis for the id only: earlier in this history remove_task left a batch registered
             # with zero members (not a C01 clause by itself), the known root cause
             vid = taint + ".oversubscribed"
+    demand = "on instance %s%s: %s" % (X, "" if widx is None else ", worker %d" % widx, demand)
     hwhat = dict(scope=scope, id=vid, expr="(lambda I: %s)(%s[%r]) != %r" % (expr, "FINAL" if phase == "drain" else "AFTER", X, want),
                  demand=demand, saw=saw, want=want, inst=X, widx=widx, clause=clause)
     return finish_viol(cfg, hist, probe, mode, dops, hwhat, can)
@@ -1252,14 +1263,21 @@ class Acc(object):
         self.maxlen = 0
         self.truncated = False
         self.per_cfg = {}
+        self.notes = {}
 
     def add(self, cfg, hist, res, L_before):
+        if res.get("note"):
+            cur = self.notes.setdefault(res["note"][0], [0, res["note"][1]])
+            cur[0] += 1
+            if len(res["note"][1]) < len(cur[1]):
+                cur[1] = res["note"][1]
         self.evals += 1
         self.per_cfg[cfg.name] = self.per_cfg.get(cfg.name, 0) + 1
         self.maxlen = max(self.maxlen, len(hist))
         if res["nontrivial"]:
             self.nontrivial += 1
-            if len(self.samples) < 2 and len(hist) >= 3 and not res["leaf"]:
+            if len(self.samples) < 1 and len(hist) >= 3 and not res["leaf"] and hist[0][0] not in ("copy", "deepcopy", "copyP", "deepcopyP") \
+                    and any(o[0] in ("copy", "copyP", "multi", "place") for o in hist[1:]):
                 self.samples.append({"config": cfg.name, "history": [op_src(cfg, o) for o in hist]})
         if res["fn"]:
             self.fns[res["fn"]] = self.fns.get(res["fn"], 0) + 1
@@ -1281,6 +1299,11 @@ class Acc(object):
         self.maxlen = max(self.maxlen, o.maxlen)
         for k, n in o.per_cfg.items():
             self.per_cfg[k] = self.per_cfg.get(k, 0) + n
+        for k, (n, w) in o.notes.items():
+            cur = self.notes.setdefault(k, [0, w])
+            cur[0] += n
+            if len(w) < len(cur[1]):
+                cur[1] = w
         for k, n in o.fns.items():
             self.fns[k] = self.fns.get(k, 0) + n
         for vid, (n, v) in o.viol.items():
@@ -1292,7 +1315,7 @@ class Acc(object):
                 if better(v, cur[1]):
                     cur[1] = v
         for s in o.samples:
-            if len(self.samples) < 5:
+            if len(self.samples) < 5 and not any(x["config"] == s["config"] for x in self.samples):
                 self.samples.append(s)
 
 
@@ -1363,11 +1386,11 @@ def main():
     if args.only:
         cfgs = [c for c in cfgs if c.name in args.only.split(",")]
     depths = dict((c.name, args.depth or depth_for(c, tier, pid)) for c in cfgs)
-    bound = ("all operation histories up to length %s over %d configurations (%s); level 1 quantities 0..3, %s computations; level 2: 3 tasks, "
-             "batch_size 2, 1 profile, at most one copy/deepcopy per history (then operations on both instances); pruning: refused op ends the history, "
-             "first-use order of interchangeable tasks, revisited concrete state with >= remaining depth skipped"
-             % (", ".join("%s:%d" % (k, v) for k, v in sorted(set((c.kind, depths[c.name]) for c in cfgs))), len(cfgs),
-                ", ".join(c.name for c in cfgs), "3" if tier == "thorough" else "2"))
+    bound = ("all operation histories up to the length given per configuration: %s; level 1 (R.*): allocate quantities 0..3 (0 only for the first request "
+             "resource in the quick tier), %s computations; level 2 (W.* one worker, P.* pool of two workers): 3 tasks, batch_size 2, 1-2 profiles, "
+             "at most one copy/deepcopy per history (then operations on both instances); pruning: a refused operation ends the history, a violation ends the "
+             "history, first-use order of interchangeable tasks, a revisited concrete state with >= remaining depth is not expanded again (memo reset per depth-1 subtree)"
+             % (", ".join("%s:%d" % (c.name, depths[c.name]) for c in cfgs), "3" if tier == "thorough" else "2"))
     rule = ("one case per executed history (checked after its last step; every prefix is its own case). non-trivial = the ledger is non-empty before or "
             "after the last step (some allocation / resident task / loaded profile exists), i.e. the comparison real-vs-ledger is not about an empty cluster")
     R = Result(args, rule=rule, bound=bound)
@@ -1413,9 +1436,20 @@ def main():
     R.samples = total.samples[:5]
     for k, n in sorted(total.fns.items()):
         R.called(k, n)
-    R.called("Resources.get_available_quantity/get_allocated_quantity/get_total_quantity/get_allocated_computation (observation)", total.evals * 2)
-    if any(c.level == 2 for c in cfgs):
-        R.called("Worker.get_placed_tasks/get_available_profiles/get_pending_profiles/is_available/can_accomodate_strategy (observation)", total.evals * 2)
+    # observation after every history (at least once per evaluated history)
+    for fn in ("Resources.get_available_quantity", "Resources.get_allocated_quantity", "Resources.get_total_quantity",
+               "Resources.get_allocated_computation", "Resources.resources", "Resource.__eq__"):
+        R.called(fn, total.evals)
+    n2 = sum(n for k, n in total.per_cfg.items() if not k.startswith("R."))
+    if n2:
+        for fn in ("Worker.get_placed_tasks", "Worker.get_available_profiles", "Worker.get_pending_profiles", "Worker.is_available"):
+            R.called(fn, n2)
+        n_place = sum(n for k, n in total.fns.items() if k.endswith(".place_task"))
+        R.called("Worker.can_accomodate_strategy / Resources.__gt__", n_place)
+    n3 = sum(n for k, n in total.per_cfg.items() if k.startswith("P."))
+    if n3:
+        for fn in ("WorkerPool.get_placed_tasks", "WorkerPools.get_placed_tasks", "WorkerPool.can_accomodate_strategy"):
+            R.called(fn, n3)
     R.exhaustive = not truncated
     if truncated:
         R.undecided.append("time budget reached before the enumeration finished; bound not fully covered")
@@ -1448,6 +1482,8 @@ def main():
             R.violations[vid]["replay_exit"] = rc
             if rc != 1:
                 R.undecided.append("replay of %s did not reproduce (exit %s): %s" % (vid, rc, tail[-400:]))
+    for k, (n, w) in sorted(total.notes.items()):
+        observations.append({"id": k, "count": n, "what": w})
     R.extra["observations"] = observations
     R.extra["pruned_subtrees"] = total.pruned
     R.extra["max_history_length"] = total.maxlen
